@@ -107,6 +107,23 @@ Proof. unfold emit_import. destruct (is_builtins m); reflexivity. Qed.
 Lemma stopped_emit_import m n s : stopped (emit_import m n s) = stopped s.
 Proof. unfold emit_import. destruct (is_builtins m); reflexivity. Qed.
 
+(* SETITEMS on an object: a run of emitted item assignments *)
+Lemma fold_emit_fields name (kvs : list (expr * expr)) : forall s,
+  let s1 := fold_left (fun st kv => emit (SSetItemV name (fst kv) (snd kv)) st) kvs s in
+  stack s1 = stack s /\ memo s1 = memo s /\ stopped s1 = stopped s.
+Proof.
+  induction kvs as [|kv r IH]; intros s; cbn; [auto|].
+  specialize (IH (emit (SSetItemV name (fst kv) (snd kv)) s)). cbn in IH. exact IH.
+Qed.
+Lemma stack_fold_emit name kvs s :
+  stack (fold_left (fun st kv => emit (SSetItemV name (fst kv) (snd kv)) st) kvs s) = stack s.
+Proof. apply (fold_emit_fields name kvs s). Qed.
+Lemma memo_fold_emit name kvs s :
+  memo (fold_left (fun st kv => emit (SSetItemV name (fst kv) (snd kv)) st) kvs s) = memo s.
+Proof. apply (fold_emit_fields name kvs s). Qed.
+Lemma stopped_fold_emit name kvs s :
+  stopped (fold_left (fun st kv => emit (SSetItemV name (fst kv) (snd kv)) st) kvs s) = stopped s.
+Proof. apply (fold_emit_fields name kvs s). Qed.
 
 Lemma shape_fk_unfold s : shape_fk s = mkShape (frames_of (stack s)) (map fst (memo s)) (stopped s).
 Proof. reflexivity. Qed.
@@ -138,7 +155,10 @@ Ltac base :=
   end.
 
 Ltac expose :=
-  unfold shape_fk, bind_call, new_variable, push, emit, with_stack, alloc, set_node in *;
+  unfold shape_fk, bind_call, push, with_stack in *;
+  cbn [stack memo stopped nodes body ctr fst snd] in *;
+  rewrite ?stack_fold_emit, ?memo_fold_emit, ?stopped_fold_emit;
+  unfold new_variable, emit, alloc, set_node in *;
   cbn [stack memo stopped nodes body ctr fst snd] in *;
   rewrite ?stack_emit_import, ?memo_emit_import, ?stopped_emit_import.
 
